@@ -280,3 +280,49 @@ def apply_literal(text, pat, rep, count=None, regex=False):
         last = b
     out.append(text[last:])
     return ''.join(out), len(hits)
+
+
+def r7_loop_value(text):
+    """R7b: `let X = loop { .. break E .. };` -> `let X; loop { .. { X = E; break; } .. }`.
+    Same meaning in Rust (deferred initialisation, definite assignment checked by rustc);
+    needed because the verifier does not support `break` with a value."""
+    fired = 0
+    while True:
+        m = mask(text)
+        mo = re.search(r'\blet\s+(mut\s+)?(\w+)\s*(:\s*[^=;]+?)?\s*=\s*loop\s*\{', m)
+        if not mo:
+            break
+        var = mo.group(2)
+        bo = mo.end() - 1
+        bc = match_close(m, bo)
+        inner_m = m[bo + 1:bc]
+        if re.search(r'\b(loop|while|for)\b', inner_m):
+            raise AnchorLost('r7_loop_value: nested loop inside value loop')
+        inner = text[bo + 1:bc]
+        out, last = [], 0
+        for b in re.finditer(r'\bbreak\b', inner_m):
+            # expression extent: up to ',' or ';' or '}' at depth 0
+            k, depth = b.end(), 0
+            while k < len(inner_m):
+                ch = inner_m[k]
+                if ch in '([{':
+                    depth += 1
+                elif ch in ')]}':
+                    if depth == 0:
+                        break
+                    depth -= 1
+                elif ch in ',;' and depth == 0:
+                    break
+                k += 1
+            expr = inner[b.end():k].strip()
+            if not expr:
+                continue
+            out.append(inner[last:b.start()])
+            out.append('{ %s = %s; break; }' % (var, expr))
+            last = k
+        out.append(inner[last:])
+        ty = mo.group(3) or ''
+        head = 'let %s%s%s; loop {' % (mo.group(1) or '', var, ty.rstrip())
+        text = text[:mo.start()] + head + ''.join(out) + text[bc:]
+        fired += 1
+    return text, fired
